@@ -12,6 +12,7 @@ package main
 //     or only under a condition that makes the requirement vacuous (vac).
 
 import (
+	"fmt"
 	"go/token"
 
 	"golang.org/x/tools/go/ssa"
@@ -20,6 +21,152 @@ import (
 type ubound struct {
 	fn  *ssa.Function
 	vac []Edge
+	reg *Region // optional: look through results/parameters of inlined helpers
+	mfs map[string]*memField
+}
+
+func (u *ubound) memFieldOf(al *ssa.Alloc, fld int) *memField {
+	if u.mfs == nil {
+		u.mfs = map[string]*memField{}
+	}
+	k := fmt.Sprintf("%p/%d", al, fld)
+	if m, ok := u.mfs[k]; ok {
+		return m
+	}
+	m := newMemField(al, fld)
+	u.mfs[k] = m
+	return m
+}
+
+// siteOK: the value e, put somewhere at instruction `at`, is acceptable there
+// although not bounded by itself: the site is reached only when the
+// requirement is vacuous or when e was compared <= something bounded.
+func (u *ubound) siteOK(e ssa.Value, at ssa.Instruction, isX func(ssa.Value) bool, d int, busy map[ssa.Value]bool) bool {
+	fn := at.Parent()
+	inFn := func(es []Edge) []Edge {
+		var out []Edge
+		for _, ed := range es {
+			if ed.From.Parent() == fn {
+				out = append(out, ed)
+			}
+		}
+		return out
+	}
+	if vac := inFn(u.vac); len(vac) > 0 && guardedByEdges(fn, at, vac) {
+		return true
+	}
+	for _, lf := range u.leqIn(fn, e) {
+		les := inFn(lf.edges)
+		if len(les) == 0 || !guardedByEdges(fn, at, les) {
+			continue
+		}
+		if u.bounded(lf.w, isX, d+1, busy) {
+			return true
+		}
+	}
+	return false
+}
+
+func (u *ubound) boundedDef(mf *memField, def *memDef, isX func(ssa.Value) bool, d int, busy map[ssa.Value]bool, seen map[*memDef]bool) bool {
+	if def == nil || def.entry || d > 14 {
+		return false
+	}
+	if seen[def] {
+		return true // around a loop: judged where it was first met
+	}
+	seen[def] = true
+	switch {
+	case def.store != nil && !def.whole:
+		st := def.store.(*ssa.Store)
+		return u.bounded(st.Val, isX, d+1, busy) || u.siteOK(st.Val, st, isX, d, busy)
+	case def.store != nil:
+		st := def.store.(*ssa.Store)
+		vals := u.fieldStores(st.Val, mf.fld, 0, map[ssa.Value]bool{})
+		if len(vals) == 0 {
+			return false
+		}
+		for _, fs := range vals {
+			if u.bounded(fs.val, isX, d+1, busy) || u.siteOK(fs.val, st, isX, d, busy) {
+				continue
+			}
+			// judged where the value was put into the struct or handed on (inside a helper, under its guards)
+			okSite := false
+			for _, at := range append([]ssa.Instruction{fs.at}, fs.sites...) {
+				if at != nil && at != ssa.Instruction(st) && u.siteOK(fs.val, at, isX, d, busy) {
+					okSite = true
+					break
+				}
+			}
+			if okSite {
+				continue
+			}
+			return false
+		}
+		return true
+	case def.join != nil:
+		fn := def.join.Parent()
+		for i, pd := range def.preds {
+			if pd == nil {
+				continue // unreachable predecessor
+			}
+			if u.boundedDef(mf, pd, isX, d+1, busy, seen) {
+				continue
+			}
+			pred := def.join.Preds[i]
+			var vac []Edge
+			for _, ed := range u.vac {
+				if ed.From.Parent() == fn {
+					vac = append(vac, ed)
+				}
+			}
+			if len(vac) > 0 && edgeGuarded(fn, pred, def.join, vac) {
+				continue
+			}
+			// the edge is taken only when a read of this very definition was compared <= something bounded
+			ok := false
+			allInstrs(fn, func(in ssa.Instruction) {
+				if ok {
+					return
+				}
+				ld, isLd := in.(*ssa.UnOp)
+				if !isLd || ld.Op != token.MUL {
+					return
+				}
+				fa, isFA := ld.X.(*ssa.FieldAddr)
+				if !isFA || fa.X != ssa.Value(mf.al) || fa.Field != mf.fld || mf.At(ld) != pd {
+					return
+				}
+				for _, lf := range u.leq(ld) {
+					var les []Edge
+					for _, ed := range lf.edges {
+						if ed.From.Parent() == fn {
+							les = append(les, ed)
+						}
+					}
+					if len(les) > 0 && edgeGuarded(fn, pred, def.join, les) && u.bounded(lf.w, isX, d+1, busy) {
+						ok = true
+					}
+				}
+			})
+			if !ok {
+				return false
+			}
+		}
+		return true
+	}
+	return false
+}
+
+func fnOfValue(v ssa.Value, dflt *ssa.Function) *ssa.Function {
+	switch x := v.(type) {
+	case ssa.Instruction:
+		if x.Parent() != nil {
+			return x.Parent()
+		}
+	case *ssa.Parameter:
+		return x.Parent()
+	}
+	return dflt
 }
 
 type leqFact struct {
@@ -28,16 +175,50 @@ type leqFact struct {
 }
 
 // leq: comparisons of a against something, with the edges on which a <= w holds
-func (u *ubound) leq(a ssa.Value) []leqFact {
+func (u *ubound) leq(a ssa.Value) []leqFact { return u.leqIn(fnOfValue(stripNum(a), u.fn), a) }
+
+// valueOf: the single value v stands for, looking through parameters of
+// inlined helpers and through fields of local structs with one reaching value.
+func (u *ubound) valueOf(v ssa.Value, d int) ssa.Value {
+	v = stripNum(v)
+	if d > 6 {
+		return v
+	}
+	if u.reg != nil {
+		v = stripNum(u.reg.Resolve(v))
+	}
+	if ld, ok := v.(*ssa.UnOp); ok && ld.Op == token.MUL {
+		if fa, ok := ld.X.(*ssa.FieldAddr); ok {
+			if al, ok := fa.X.(*ssa.Alloc); ok {
+				mf := u.memFieldOf(al, fa.Field)
+				def := mf.At(ld)
+				if def != nil && def.store != nil {
+					st := def.store.(*ssa.Store)
+					if !def.whole {
+						return u.valueOf(st.Val, d+1)
+					}
+					if vals := u.fieldStores(st.Val, fa.Field, 0, map[ssa.Value]bool{}); len(vals) == 1 {
+						return u.valueOf(vals[0].val, d+1)
+					}
+				}
+			}
+		}
+	}
+	return v
+}
+
+// leqIn: comparisons in fn of (something that is) a against something, with the edges on which a <= w holds
+func (u *ubound) leqIn(fn *ssa.Function, a ssa.Value) []leqFact {
 	var out []leqFact
 	a = stripNum(a)
-	allInstrs(u.fn, func(in ssa.Instruction) {
+	av := u.valueOf(a, 0)
+	allInstrs(fn, func(in ssa.Instruction) {
 		b, ok := in.(*ssa.BinOp)
 		if !ok {
 			return
 		}
 		x, y := stripNum(b.X), stripNum(b.Y)
-		isA := func(v ssa.Value) bool { return v == a || sameVar(v, a) }
+		isA := func(v ssa.Value) bool { return v == a || sameVar(v, a) || u.valueOf(v, 0) == av }
 		t, f := []Edge(nil), []Edge(nil)
 		get := func() { t, f = boolEdges(b) }
 		switch {
@@ -70,14 +251,75 @@ func (u *ubound) Bounded(v ssa.Value, isX func(ssa.Value) bool) bool {
 
 func (u *ubound) bounded(v ssa.Value, isX func(ssa.Value) bool, d int, busy map[ssa.Value]bool) bool {
 	v = stripNum(v)
+	if u.reg != nil {
+		v = stripNum(u.reg.Resolve(v))
+	}
 	if isX(v) {
 		return true
 	}
-	if d > 8 || busy[v] {
+	if d > 10 || busy[v] {
 		return false
+	}
+	// the result of an inlined helper: bounded if every value it can return is
+	if u.reg != nil {
+		var call *ssa.Call
+		idx := 0
+		switch x := v.(type) {
+		case *ssa.Extract:
+			call, _ = x.Tuple.(*ssa.Call)
+			idx = x.Index
+		case *ssa.Call:
+			call = x
+		}
+		if call != nil {
+			if cal := regionCallee(call); cal != nil && u.reg.site[cal] == ssa.CallInstruction(call) {
+				busy[v] = true
+				defer delete(busy, v)
+				n := 0
+				for _, ret := range returnsOf(cal) {
+					vals := returnValues(ret)
+					if idx >= len(vals) {
+						continue
+					}
+					// on a path that reports an error the other results are not used
+					if last := vals[len(vals)-1]; len(vals) > 1 && isErrorType(last.Type()) && definitelyNonNilError(last, nil) {
+						continue
+					}
+					n++
+					if !u.bounded(vals[idx], isX, d+1, busy) {
+						return false
+					}
+				}
+				return n > 0
+			}
+		}
 	}
 	busy[v] = true
 	defer delete(busy, v)
+	// a field of a local struct variable (`target.num` with target a small
+	// struct built here or returned by a helper): follow the definitions of
+	// that field that reach this read (memfield.go)
+	if ld, ok := v.(*ssa.UnOp); ok && ld.Op == token.MUL {
+		if fa, ok := ld.X.(*ssa.FieldAddr); ok {
+			if al, ok := fa.X.(*ssa.Alloc); ok {
+				mf := u.memFieldOf(al, fa.Field)
+				return u.boundedDef(mf, mf.At(ld), isX, d+1, busy, map[*memDef]bool{})
+			}
+		}
+	}
+	if sv, fld, ok := localStructField(v); ok {
+		// a field of a struct VALUE: every value that field can hold
+		sites := u.fieldStores(sv, fld, 0, map[ssa.Value]bool{})
+		if len(sites) == 0 {
+			return false
+		}
+		for _, fs := range sites {
+			if !u.bounded(fs.val, isX, d+1, busy) {
+				return false
+			}
+		}
+		return true
+	}
 	switch x := v.(type) {
 	case *ssa.Call:
 		if calleeName(x) == "builtin min" {
@@ -88,17 +330,28 @@ func (u *ubound) bounded(v ssa.Value, isX func(ssa.Value) bool, d int, busy map[
 			}
 		}
 	case *ssa.Phi:
+		pfn := x.Parent()
+		sameFn := func(es []Edge) []Edge {
+			var out []Edge
+			for _, e := range es {
+				if e.From.Parent() == pfn {
+					out = append(out, e)
+				}
+			}
+			return out
+		}
 		for i, e := range x.Edges {
 			pred := x.Block().Preds[i]
 			if u.bounded(e, isX, d+1, busy) {
 				continue
 			}
-			if len(u.vac) > 0 && edgeGuarded(u.fn, pred, x.Block(), u.vac) {
+			if vac := sameFn(u.vac); len(vac) > 0 && edgeGuarded(pfn, pred, x.Block(), vac) {
 				continue
 			}
 			ok := false
 			for _, lf := range u.leq(e) {
-				if len(lf.edges) == 0 || !edgeGuarded(u.fn, pred, x.Block(), lf.edges) {
+				les := sameFn(lf.edges)
+				if len(les) == 0 || !edgeGuarded(pfn, pred, x.Block(), les) {
 					continue
 				}
 				if u.bounded(lf.w, isX, d+1, busy) {
@@ -113,4 +366,109 @@ func (u *ubound) bounded(v ssa.Value, isX func(ssa.Value) bool, d int, busy map[
 		return true
 	}
 	return false
+}
+
+// localStructField: v is a load of field f of a struct value held in a local
+// variable (or of a struct value itself): returns the struct value and the field index.
+func localStructField(v ssa.Value) (ssa.Value, int, bool) {
+	switch x := v.(type) {
+	case *ssa.UnOp:
+		if x.Op != token.MUL {
+			return nil, 0, false
+		}
+		if fa, ok := x.X.(*ssa.FieldAddr); ok {
+			if al, ok := fa.X.(*ssa.Alloc); ok {
+				return al, fa.Field, true
+			}
+		}
+	case *ssa.Field:
+		return x.X, x.Field, true
+	}
+	return nil, 0, false
+}
+
+type fieldStore struct {
+	val   ssa.Value
+	at    ssa.Instruction   // where the value is put into the field (nil: part of a value built elsewhere)
+	sites []ssa.Instruction // further places the value passes on its way (return statements of helpers, assignments)
+}
+
+// fieldStores: every value that can be field `fld` of the struct denoted by
+// sv (a local variable's cell, a struct value, a parameter, the result of an
+// inlined helper), flow-insensitively.
+func (u *ubound) fieldStores(sv ssa.Value, fld int, d int, seen map[ssa.Value]bool) []fieldStore {
+	if d > 8 || seen[sv] {
+		return nil
+	}
+	seen[sv] = true
+	var out []fieldStore
+	if u.reg != nil {
+		sv = u.reg.Resolve(sv)
+	}
+	switch x := sv.(type) {
+	case *ssa.Alloc:
+		for _, ref := range *x.Referrers() {
+			switch r := ref.(type) {
+			case *ssa.FieldAddr:
+				if r.Field != fld {
+					continue
+				}
+				for _, r2 := range *r.Referrers() {
+					if st, ok := r2.(*ssa.Store); ok && st.Addr == ssa.Value(r) {
+						out = append(out, fieldStore{val: st.Val, at: st})
+					}
+				}
+			case *ssa.Store:
+				if r.Addr == ssa.Value(x) {
+					// whole-struct assignment
+					for _, fs := range u.fieldStores(r.Val, fld, d+1, seen) {
+						if fs.at == nil {
+							fs.at = r
+						} else {
+							fs.sites = append(fs.sites, r)
+						}
+						out = append(out, fs)
+					}
+				}
+			}
+		}
+	case *ssa.UnOp:
+		if x.Op == token.MUL {
+			return u.fieldStores(x.X, fld, d+1, seen)
+		}
+	case *ssa.Phi:
+		for _, e := range x.Edges {
+			out = append(out, u.fieldStores(e, fld, d+1, seen)...)
+		}
+	case *ssa.Extract, *ssa.Call:
+		var call *ssa.Call
+		idx := 0
+		if e, ok := x.(*ssa.Extract); ok {
+			call, _ = e.Tuple.(*ssa.Call)
+			idx = e.Index
+		} else {
+			call = x.(*ssa.Call)
+		}
+		if call == nil || u.reg == nil {
+			return nil
+		}
+		cal := regionCallee(call)
+		if cal == nil || u.reg.site[cal] != ssa.CallInstruction(call) {
+			return nil
+		}
+		for _, ret := range returnsOf(cal) {
+			vals := returnValues(ret)
+			if idx >= len(vals) {
+				continue
+			}
+			if last := vals[len(vals)-1]; len(vals) > 1 && isErrorType(last.Type()) && definitelyNonNilError(last, nil) {
+				continue
+			}
+			for _, fs := range u.fieldStores(vals[idx], fld, d+1, seen) {
+				fs.sites = append(fs.sites, ret)
+				out = append(out, fs)
+			}
+		}
+	}
+	return out
 }
